@@ -247,7 +247,12 @@ def parse_node(node, fname, vals, kinds, opts, ctx, cur, P0, path):
         ctx.starts[path] = cur
         mode = node['mode']
         if mode == 'size':
-            n = eval_spelled(node['size'], node['sp'], vals, kinds)
+            if node['sp'] == 'rem':
+                if cur > len(raw):
+                    raise OutOfScope('beyond the end')
+                n = len(raw) - cur
+            else:
+                n = eval_spelled(node['size'], node['sp'], vals, kinds)
             if type(n) is not int:
                 raise Fail('size %r is not an integer' % (n,))
             bs = ctx.need(cur, n, path)
@@ -318,7 +323,12 @@ def parse_node(node, fname, vals, kinds, opts, ctx, cur, P0, path):
         a = node.get('aligned') or opts.get('align') or 1
         elem = node['elem']
         if node['count'] is not None:
-            n = eval_spelled(node['count'], node['csp'], vals, kinds)
+            if node['csp'] == 'rem':
+                if cur > len(raw):
+                    raise OutOfScope('beyond the end')
+                n = len(raw) - cur
+            else:
+                n = eval_spelled(node['count'], node['csp'], vals, kinds)
             if type(n) is not int:
                 raise Fail('count %r is not an integer' % (n,))
         else:
@@ -336,7 +346,7 @@ def parse_node(node, fname, vals, kinds, opts, ctx, cur, P0, path):
         if node['until'] is not None:
             while True:
                 try:
-                    stop = until_eval(node['until'], out)
+                    stop = until_eval(node['until'], out, cur, P0, len(raw))
                 except Exception as e:
                     raise Fail('until condition raised %s' % type(e).__name__)
                 if stop:
